@@ -567,6 +567,11 @@ func (m c04) requestCase(rc reqCodec, r *core.Rand, i int) {
 			"bitflip":      flipBit(enc, r.IntN(len(enc)*8)),
 			"truncated":    enc[:len(enc)-1],
 		}
+		if rc.name == "type3.TokenRequest" && len(enc) > 100 {
+			// bytes inserted in front of the signature, which stays the last 96 bytes
+			variants["inserted-before-signature"] = append(append(clone(enc[:len(enc)-96]), r.Bytes(1+r.IntN(8))...), enc[len(enc)-96:]...)
+			variants["inserted-before-signature-96"] = append(append(clone(enc[:len(enc)-96]), enc[len(enc)-96:]...), enc[len(enc)-96:]...)
+		}
 		if rc.name == "type5.TokenRequest" {
 			l, n := refVarintDec(enc[3:])
 			for _, form := range []int{2, 4, 8} {
